@@ -137,6 +137,22 @@ func init() {
 		fr.path().Assert(mustTerm(args[0]), msg)
 		return nil
 	})
+	// Exits runs f and reports whether it ended the process (os.Exit, log.Fatal*).
+	reg(rtPkg+".Exits", func(fr *frame, args []value) (res value) {
+		res = false
+		defer func() {
+			if r := recover(); r != nil {
+				if code, ok := r.(exitPanic); ok {
+					fr.path().events = append(fr.path().events, Event{Kind: "exit", Args: []value{int(code)}})
+					res = true
+					return
+				}
+				panic(r)
+			}
+		}()
+		call(fr.i, fr, 0, args[0], nil)
+		return
+	})
 	reg(rtPkg+".Reached", func(fr *frame, args []value) value {
 		fr.path().reached[args[0].(string)] = true
 		return nil
@@ -240,30 +256,30 @@ func init() {
 	})
 	reg("strings.TrimPrefix", func(fr *frame, args []value) value {
 		return memoPure(fr, "strings.TrimPrefix", args, func() value {
-		if allConcrete(args) {
-			return strings.TrimPrefix(args[0].(string), args[1].(string))
-		}
-		s, p := mustTerm(args[0]), mustTerm(args[1])
-		if fr.path().branch(PrefixOf(p, s)) {
-			t := fr.path().Fresh("trimprefix", SStr)
-			fr.path().Assume(Eq(s, Concat(p, t)))
-			return strVal(t)
-		}
-		return args[0]
+			if allConcrete(args) {
+				return strings.TrimPrefix(args[0].(string), args[1].(string))
+			}
+			s, p := mustTerm(args[0]), mustTerm(args[1])
+			if fr.path().branch(PrefixOf(p, s)) {
+				t := fr.path().Fresh("trimprefix", SStr)
+				fr.path().Assume(Eq(s, Concat(p, t)))
+				return strVal(t)
+			}
+			return args[0]
 		})
 	})
 	reg("strings.TrimSuffix", func(fr *frame, args []value) value {
 		return memoPure(fr, "strings.TrimSuffix", args, func() value {
-		if allConcrete(args) {
-			return strings.TrimSuffix(args[0].(string), args[1].(string))
-		}
-		s, p := mustTerm(args[0]), mustTerm(args[1])
-		if fr.path().branch(SuffixOf(p, s)) {
-			t := fr.path().Fresh("trimsuffix", SStr)
-			fr.path().Assume(Eq(s, Concat(t, p)))
-			return strVal(t)
-		}
-		return args[0]
+			if allConcrete(args) {
+				return strings.TrimSuffix(args[0].(string), args[1].(string))
+			}
+			s, p := mustTerm(args[0]), mustTerm(args[1])
+			if fr.path().branch(SuffixOf(p, s)) {
+				t := fr.path().Fresh("trimsuffix", SStr)
+				fr.path().Assume(Eq(s, Concat(t, p)))
+				return strVal(t)
+			}
+			return args[0]
 		})
 	})
 	reg("strings.Replace", func(fr *frame, args []value) value {
@@ -300,14 +316,14 @@ func init() {
 	})
 	reg("strings.Split", func(fr *frame, args []value) value {
 		return memoPure(fr, "strings.Split", args, func() value {
-		if allConcrete(args) {
-			return strSliceVal(strings.Split(args[0].(string), args[1].(string)))
-		}
-		sep, ok := args[1].(string)
-		if !ok || sep == "" {
-			panic(engineError{"strings.Split with symbolic or empty separator"})
-		}
-		return fr.i.symSplit(mustTerm(args[0]), sep)
+			if allConcrete(args) {
+				return strSliceVal(strings.Split(args[0].(string), args[1].(string)))
+			}
+			sep, ok := args[1].(string)
+			if !ok || sep == "" {
+				panic(engineError{"strings.Split with symbolic or empty separator"})
+			}
+			return fr.i.symSplit(mustTerm(args[0]), sep)
 		})
 	})
 	reg("strings.Join", func(fr *frame, args []value) value {
@@ -324,31 +340,31 @@ func init() {
 	})
 	reg("strings.TrimSpace", func(fr *frame, args []value) value {
 		return memoPure(fr, "strings.TrimSpace", args, func() value {
-		if s, ok := goStr(args[0]); ok {
-			return strings.TrimSpace(s)
-		}
-		// result r: s = l ++ r ++ t, l and t whitespace, r has no leading/trailing whitespace (ASCII)
-		s := mustTerm(args[0])
-		p := fr.path()
-		// fast path: already trimmed (no leading / trailing white space)
-		{
+			if s, ok := goStr(args[0]); ok {
+				return strings.TrimSpace(s)
+			}
+			// result r: s = l ++ r ++ t, l and t whitespace, r has no leading/trailing whitespace (ASCII)
+			s := mustTerm(args[0])
+			p := fr.path()
+			// fast path: already trimmed (no leading / trailing white space)
+			{
+				ws := `(re.union (str.to_re " ") (re.range "\u{9}" "\u{d}"))`
+				nws := `(re.diff re.allchar ` + ws + `)`
+				trimmed := InRe(s, `(re.union (str.to_re "") `+nws+` (re.++ `+nws+` re.all `+nws+`))`)
+				if p.branch(trimmed) {
+					return args[0]
+				}
+			}
+			l := p.Fresh("trimspace.l", SStr)
+			r := p.Fresh("trimspace.r", SStr)
+			t := p.Fresh("trimspace.t", SStr)
 			ws := `(re.union (str.to_re " ") (re.range "\u{9}" "\u{d}"))`
 			nws := `(re.diff re.allchar ` + ws + `)`
-			trimmed := InRe(s, `(re.union (str.to_re "") `+nws+` (re.++ `+nws+` re.all `+nws+`))`)
-			if p.branch(trimmed) {
-				return args[0]
-			}
-		}
-		l := p.Fresh("trimspace.l", SStr)
-		r := p.Fresh("trimspace.r", SStr)
-		t := p.Fresh("trimspace.t", SStr)
-		ws := `(re.union (str.to_re " ") (re.range "\u{9}" "\u{d}"))`
-		nws := `(re.diff re.allchar ` + ws + `)`
-		p.Assume(Eq(s, Concat(Concat(l, r), t)))
-		p.Assume(InRe(l, "(re.* "+ws+")"))
-		p.Assume(InRe(t, "(re.* "+ws+")"))
-		p.Assume(InRe(r, `(re.union (str.to_re "") `+nws+` (re.++ `+nws+` re.all `+nws+`))`))
-		return strVal(r)
+			p.Assume(Eq(s, Concat(Concat(l, r), t)))
+			p.Assume(InRe(l, "(re.* "+ws+")"))
+			p.Assume(InRe(t, "(re.* "+ws+")"))
+			p.Assume(InRe(r, `(re.union (str.to_re "") `+nws+` (re.++ `+nws+` re.all `+nws+`))`))
+			return strVal(r)
 		})
 	})
 	reg("strings.ToLower", func(fr *frame, args []value) value {
@@ -460,17 +476,17 @@ func init() {
 	})
 	reg("strings.Cut", func(fr *frame, args []value) value {
 		return memoPure(fr, "strings.Cut", args, func() value {
-		if allConcrete(args) {
-			b, a, f := strings.Cut(args[0].(string), args[1].(string))
-			return tuple{b, a, f}
-		}
-		s, sep := mustTerm(args[0]), mustTerm(args[1])
-		idx := IndexOf(s, sep, IntLit(0))
-		if fr.path().branch(Ge(idx, IntLit(0))) {
-			after := Add(idx, StrLen(sep))
-			return tuple{strVal(Substr(s, IntLit(0), idx)), strVal(Substr(s, after, Sub(StrLen(s), after))), true}
-		}
-		return tuple{args[0], "", false}
+			if allConcrete(args) {
+				b, a, f := strings.Cut(args[0].(string), args[1].(string))
+				return tuple{b, a, f}
+			}
+			s, sep := mustTerm(args[0]), mustTerm(args[1])
+			idx := IndexOf(s, sep, IntLit(0))
+			if fr.path().branch(Ge(idx, IntLit(0))) {
+				after := Add(idx, StrLen(sep))
+				return tuple{strVal(Substr(s, IntLit(0), idx)), strVal(Substr(s, after, Sub(StrLen(s), after))), true}
+			}
+			return tuple{args[0], "", false}
 		})
 	})
 	reg("strings.Title", func(fr *frame, args []value) value {
@@ -581,7 +597,7 @@ func init() {
 	})
 	reg("strconv.Atoi", func(fr *frame, args []value) value {
 		return memoPure(fr, "strconv.Atoi", args, func() value {
-		return fr.i.symAtoi(fr, args[0], "Atoi")
+			return fr.i.symAtoi(fr, args[0], "Atoi")
 		})
 	})
 	reg("strconv.Quote", func(fr *frame, args []value) value {
@@ -721,11 +737,19 @@ func init() {
 	reg("(*sync.Once).Do", func(fr *frame, args []value) value {
 		p := args[0].(*value)
 		key := fmt.Sprintf("once:%p", p)
+		if fr.i.onceInit[key] {
+			return nil // done during package initialisation
+		}
 		if fr.path() != nil {
 			if _, done := fr.path().memo[key]; done {
 				return nil
 			}
 			fr.path().memo[key] = true
+		} else {
+			if fr.i.onceInit == nil {
+				fr.i.onceInit = map[string]bool{}
+			}
+			fr.i.onceInit[key] = true
 		}
 		call(fr.i, fr, 0, args[1], nil)
 		return nil
